@@ -271,3 +271,17 @@ func (a *DAccount) Sign(ctx context.Context, data []byte) (e2types.Signature, er
 	}
 	return &BLSSig{S: *a.Share.SignByte(data)}, nil
 }
+
+// PreparedScratchStores: the stores the wallet library's scratch.New() hands out in the executor, in
+// order (the harness provisions them before the code under test asks for a scratch store).
+var PreparedScratchStores []e2wtypes.Store
+
+// NextScratchStore is what scratch.New() returns in the executor.
+func NextScratchStore() e2wtypes.Store {
+	if len(PreparedScratchStores) == 0 {
+		return &Store{N: "scratch"}
+	}
+	s := PreparedScratchStores[0]
+	PreparedScratchStores = PreparedScratchStores[1:]
+	return s
+}
